@@ -320,5 +320,8 @@ NOT_APPLICABLE = {
            "(iterator/rayon adapters are outside Verus' subset; CBMC cannot symbolically execute code that moves and drops Tensors held in Vecs)",
     "C05": "quantifies over thread schedules of rayon's pool; Kani has no thread support and Verus has no specification of rayon",
 }
-for _p in ["C01", "C02", "C06", "C07", "C08", "C09", "C10", "C11", "C12", "C13", "C14", "C15", "C16", "C17"]:
-    NOT_APPLICABLE.setdefault(_p, "not reached yet in this build round (units under construction; see DESIGN.md §8)")
+NOT_APPLICABLE["C11"] = ("whole Feedback::forward is out of reach of both verifiers (CBMC: Nested tensors held in Vecs; Verus: enumerate / HashMap<usize, Vec<usize>> "
+                         "adapters); it would have to be decided on regions (skip table of create, accumulation block, layer step) which have not been built in "
+                         "this round - nothing is claimed")
+NOT_APPLICABLE["C17"] = ("the loop-back block of Network::forward (120 lines over Vec<Vec<Tensor>> with _forward calls) is out of reach of CBMC as a whole and its "
+                         "regions have not been built in this round - nothing is claimed")
